@@ -10,6 +10,7 @@ place and a key that was touched is gone from the source."""
 import z3
 from mirsym.values import *
 from props import executor as X
+import mirsym.conc as _conc       # crossbeam channel models (client pools of the source side)
 
 K = b'{m}key'
 
@@ -122,19 +123,35 @@ class World:
             hook = getattr(self, 'between_pipelined', None)
             if hook and i + 1 < len(tasks): hook(which, X.as_bytes(elems[0]))
 
+    def source_task(self):
+        """the source proxy's ScanMigrationTask (real handle_sync_task) in front of the same Redis stand-ins"""
+        if getattr(self, '_stask', None) is not None: return self._stask
+        e = self.e
+        srcc = ScanClient(self.src, [], None); dstc = ScanClient(self.dst, [], None)
+        class AddrFactory(PyObj):
+            def m_create_client(self_, e_, s, addr): return ReadyFuture(Ok(srcc if sval(addr).startswith('src') else dstc))
+        mk_pool = lambda nm: Struct('Pool', [Ref(Cell(Struct('CbSender', [_conc.Chan(nm)])), 'Arc'), Struct('CbReceiver', [_conc.Chan(nm)])])
+        def pool(nm):
+            ch = _conc.Chan(nm); return Struct('Pool', [Ref(Cell(Struct('CbSender', [ch])), 'Arc'), Struct('CbReceiver', [ch])])
+        chan = e.call('mpsc::unbounded', [])
+        df = [f for f in e.mir.all_funcs if f.name.endswith('::default') and f.ret.endswith('MigrationStats')][0]
+        self.src_mutex = Struct('SlotMutex', [RVec([Cell(Struct('Atomic', [False])) for _ in range(16384)])])
+        vals = {'sync_tasks_sender': chan.f[0].v, 'src_address': RStr('src:6379'), 'dst_address': RStr('dst:6379'), 'client_factory': Ref(Cell(AddrFactory()), 'Arc'),
+                'slot_mutex': Ref(Cell(self.src_mutex), 'Arc'), 'src_client_pool': pool('srcpool'), 'dst_client_pool': pool('dstpool'),
+                'stats': Ref(Cell(e.run_func(df, [])), 'Arc'), 'stats_conn_last_update_time': Struct('Atomic', [0])}
+        self._stask = Struct('ScanMigrationTask', [vals.get(n, Opaque('scan-task:' + n)) for n in e.src.structs['ScanMigrationTask']])
+        return self._stask
+
     def step_srcproxy(self):
-        """the source proxy handles UMSYNC key: under its key lock it moves the key to the destination (if it still has
-        it) and deletes it locally, then answers OK"""
+        """the source proxy handles UMSYNC key with its real handler (ScanMigrationTask::handle_sync_task: slot lock, PTTL+DUMP
+        from the source Redis, RESTORE on the destination, DEL on the source, reply)"""
         e = self.e
         req = un(self.qsrcp.q.pop(0))
         t = req.f[0].v
-        elems = X.cmd_elements(e, inner_ctx(t))
-        k = X.as_bytes(elems[1])
-        if k in self.src.db:
-            if k not in self.dst.db: self.dst.db[k] = self.src.db[k]
-            del self.src.db[k]
-        self.trace.append('source proxy answers UMSYNC')
-        answer(e, t, X.simple(e, b'OK'))
+        e.generic_env.update({'T': 'CmdCtx', 'F': 'AddrFactory', 'C': 'ScanClient'})
+        fut = e.run_func(e.find_fn('ScanMigrationTask', 'handle_sync_task'), [Ref(Cell(self.source_task())), inner_ctx(t)])
+        e.block_on(Ref(Cell(fut)))
+        self.trace.append('source proxy handles UMSYNC')
 
     def scan_restore(self, snapshot):
         """the source side's scan: RESTORE (no REPLACE) of the value it dumped earlier"""
